@@ -276,6 +276,7 @@ Theorem C12_excess_trimmed : forall size evs,
   rf_is_full size (pool_run size evs) = true -> rf_excess (pool_run size evs) = [].
 Proof. exact pool_run_trimmed. Qed.
 
+(* (the acceptor's definition unfolded: a definitional lemma, stated for the record) *)
 Theorem C12_refill_ok_sound : forall size evs final, refill_ok size evs final = true ->
   map conn_shard (concat (rf_conns (pool_run size evs))) = final.
 Proof. exact refill_ok_sound. Qed.
@@ -474,7 +475,16 @@ Example C12_ex_refill :
   refill_ok (PerHost 2) [EvReady (c 1%N 0%N) false; EvReady (c 2%N 0%N) false; EvReady (c 3%N 1%N) false] [0; 0]%N = true /\
   refill_ok (PerHost 2) [EvReady (c 1%N 0%N) false; EvReady (c 2%N 0%N) false; EvBroken (c 1%N 0%N); EvReady (c 3%N 1%N) false] [0; 1]%N = true /\
   refill_ok (PerHost 2) [EvReady (c 1%N 0%N) false; EvReady (c 2%N 0%N) false; EvBroken (c 1%N 0%N); EvReady (c 3%N 1%N) false] [0; 0]%N = false /\
-  refill_ok (PerShard 1) [EvReady (c 1%N 0%N) false; EvBroken (c 1%N 0%N)] [] = true.
+  refill_ok (PerShard 1) [EvReady (c 1%N 0%N) false; EvBroken (c 1%N 0%N)] [] = true /\
+  (* the connections the model lets go = the ones the client must be seen closing: the surplus
+     plain-port connection to shard 0 (trimmed when the pool became full); nothing under PerHost 3 *)
+  map conn_key (refill_released (PerShard 1) rf_init
+                  [EvReady (c 1%N 0%N) false; EvReady (c 2%N 0%N) false; EvReady (c 3%N 1%N) false]) = [(0, 2)]%N /\
+  refill_closed_ok (PerShard 1) [EvReady (c 1%N 0%N) false; EvReady (c 2%N 0%N) false; EvReady (c 3%N 1%N) false] [(0, 2)]%N = true /\
+  refill_closed_ok (PerShard 1) [EvReady (c 1%N 0%N) false; EvReady (c 2%N 0%N) false; EvReady (c 3%N 1%N) false] [] = false /\
+  refill_closed_ok (PerShard 1) [EvReady (c 1%N 0%N) false; EvReady (c 2%N 0%N) false; EvReady (c 3%N 1%N) false] [(1, 2)]%N = false /\
+  refill_closed_ok (PerHost 3) [EvReady (c 1%N 0%N) false; EvReady (c 2%N 0%N) false; EvReady (c 3%N 1%N) false] [] = true /\
+  refill_closed_ok (PerHost 3) [EvReady (c 1%N 0%N) false; EvReady (c 2%N 0%N) false; EvReady (c 3%N 1%N) false] [(0, 2)]%N = false.
 Proof. repeat split; vm_compute; reflexivity. Qed.
 
 (* a tablet naming only a host the driver does not know: no owner, no replica candidate; the request
@@ -492,7 +502,17 @@ Example C12_ex_no_replica :
   replica_cands ex_cl2 cfg rq (route_source ex_cl2 (ex_pol cfg) rq (Some (0%N, 1%N))) = [] /\
   node_cands ex_cl2 cfg rq = [3%N] /\
   route_obs ex_cl2 ex_cho ex_shuf cfg (ex_stmt 1) ex_values = Ok (Some (3%N, 0%N)) /\
-  route_ok ex_cl2 cfg (ex_stmt 1) ex_values (Some (1%N, 3%N)) = false.
+  route_ok ex_cl2 cfg (ex_stmt 1) ex_values (Some (1%N, 3%N)) = false /\
+  (* non-trivially: on ex_cl the tablet of table (0,1) has owners, none of them usable when a datacenter
+     without nodes is preferred and failover is off: no candidates, no node group, nothing is sent *)
+  (let cfg7 := mkCfg {| pol_pref := Some (PDc 7); pol_token_aware := true; pol_failover := false |} PAny false in
+   owners ex_cl (0%N, 1%N) 1634052884888577606 (NTS [(1%N, 1%nat); (2%N, 1%nat)]) = [(2%N, 1%N); (3%N, 0%N)] /\
+   map (fun r => usable ex_cl (ex_pol cfg7) rq (fst r))
+       (owners ex_cl (0%N, 1%N) 1634052884888577606 (NTS [(1%N, 1%nat); (2%N, 1%nat)])) = [false; false] /\
+   replica_cands ex_cl cfg7 rq (route_source ex_cl (ex_pol cfg7) rq (Some (0%N, 1%N))) = [] /\
+   node_cands ex_cl cfg7 rq = [] /\
+   route_ok ex_cl cfg7 (ex_stmt 1) ex_values None = true /\
+   route_ok ex_cl cfg7 (ex_stmt 1) ex_values (Some (2%N, 0%N)) = false).
 Proof. repeat split; vm_compute; reflexivity. Qed.
 
 (* resharding and the surplus of a connection that was asked for a shard: the node goes from 4 shards to
@@ -505,7 +525,13 @@ Example C12_ex_reshard :
   rf_view (pool_run (PerShard 1) evs) = PoolSharded 2 0 [[]; [n 5%N 1%N]] /\
   refill_ok (PerShard 1) evs [1]%N = true /\ refill_ok (PerShard 1) evs [0; 1; 1]%N = false /\
   refill_dropped (PerShard 1) evs = 3%nat /\
-  refill_ok (PerShard 1) (evs ++ [EvReady (n 7%N 0%N) true]) [0; 1]%N = true.
+  refill_ok (PerShard 1) (evs ++ [EvReady (n 7%N 0%N) true]) [0; 1]%N = true /\
+  (* let go: the two old connections still held at the resharding (shards 0 and 3 of 4) and the
+     colliding requested connection (shard 1 of 2); the two cut ones are not among them *)
+  refill_closed_ok (PerShard 1) evs [(0, 4); (3, 4); (1, 2)]%N = true /\
+  refill_closed_ok (PerShard 1) evs [(3, 4); (1, 2); (0, 4)]%N = true /\
+  refill_closed_ok (PerShard 1) evs [(0, 4); (3, 4)]%N = false /\
+  refill_closed_ok (PerShard 1) evs [(0, 4); (3, 4); (0, 2)]%N = false.
 Proof. repeat split; vm_compute; reflexivity. Qed.
 
 Print Assumptions C12_token.
